@@ -157,6 +157,21 @@ def property_checks(inp):
                     vi = numpy.asarray(f(rr, *a), dtype=float); vf = numpy.asarray(f(rr.astype(float), *a), dtype=float)
                     worst_int = max(worst_int, float(numpy.max(numpy.abs(vi - vf) / numpy.maximum(numpy.abs(vf), 1e-300))) if vi.shape == vf.shape else float("inf"))
         A(("integer-typed separation arrays give the values of the same separations as floats", worst_int, 1e-12))
+        # the names the package exports are these functions (a second definition shadowing one of them changes what users get)
+        import aotools, aotools.turbulence as T_, aotools.functions as F_
+        worst_pub, missing_pub = 0.0, 0
+        for nm_, ref_, a_ in (("structure_function_vk", sc.structure_function_vk, (r0, L0)), ("structure_function_kolmogorov", sc.structure_function_kolmogorov, (r0,)),
+                              ("phase_covariance", turb.phase_covariance, (r0, L0)), ("stf_vonKarman", kl.stf_vonKarman, (L0,)), ("stf_kolmogorov", kl.stf_kolmogorov, ())):
+            for mod_ in (aotools, T_, F_):
+                f_ = getattr(mod_, nm_, None)
+                if f_ is None:
+                    continue
+                rr_ = numpy.concatenate([r, L0 * numpy.array([3e-7, 1e-5, 2e-3])])
+                v1, v2 = numpy.asarray(f_(rr_, *a_), dtype=float), numpy.asarray(ref_(rr_, *a_), dtype=float)
+                worst_pub = max(worst_pub, float(numpy.max(numpy.abs(v1 - v2) / numpy.maximum(numpy.abs(v2), 1e-300))))
+            if getattr(aotools, nm_, None) is None:
+                missing_pub += 1
+        A(("the package-level names give the values of the functions they export", worst_pub + missing_pub, 0.0))
         # positive semi-definite covariance matrices
         pts = numpy.array(inp["pts"]) * L0
         dist = numpy.sqrt(((pts[:, None, :] - pts[None, :, :]) ** 2).sum(-1))
